@@ -815,9 +815,10 @@ pub fn gen_self_overlap(rng: &mut Rng) -> Case {
 pub fn gen_near_miss(rng: &mut Rng) -> Case {
     let cfg = gen_cfg(rng, false);
     let plen = *rng.pick(&[0usize, 1, 2, 3, 7, 8, 15, 16, 17, 18, 24, 31, 32, 33, 40]);
-    let mut needle: Vec<char> = gen_text(rng, &['1', '2', '0', '-', '.', '/', ' ', '_', ':'], plen);
-    let letters = rng.range(if plen == 0 { 2 } else { 0 }, 6);
-    needle.extend(gen_text(rng, &['a', 'b', 'x', 'A', 'Z'], letters));
+    // (the punctuation whose bit 0x20 partner is another punctuation character is part of the alphabets)
+    let mut needle: Vec<char> = gen_text(rng, &['1', '2', '0', '-', '.', '/', ' ', '_', ':', '`', '{', '~', '@', '['], plen);
+    let letters = rng.range(if plen == 0 { 2 } else { 0 }, 14);
+    needle.extend(gen_text(rng, &['a', 'b', 'x', 'A', 'Z', 'a', 'b', '`', '{', '|', '}', '~', '\u{7f}', '@', '[', '^', '_'], letters));
     if rng.chance(1, 3) {
         let k = rng.range(1, 4);
         needle.extend(gen_text(rng, &['3', '-', 'c'], k));
@@ -835,7 +836,8 @@ pub fn gen_near_miss(rng: &mut Rng) -> Case {
             // behind the first 16 characters, in front of the first letter
             _ => (16 + rng.below(plen.saturating_sub(16).max(1))).min(miss.len() - 1),
         };
-        let replacement = *rng.pick(&['7', '+', 'q', 'B']);
+        // a different character, or the one that differs only in the "case" bit
+        let replacement = if miss[p].is_ascii() && rng.coin() { ((miss[p] as u8) ^ 0x20) as char } else { *rng.pick(&['7', '+', 'q', 'B']) };
         miss[p] = if miss[p] == replacement { '#' } else { replacement };
         hay.extend(miss);
         let k1 = rng.below(3);
